@@ -2,23 +2,28 @@
 
 Secrets
   Leg A   WalletCrypt.tla exhaustively: every API history (Encrypt / Lock / Unlock / Decrypt / Save / Reload / Pack / Unpack /
-          AddAccount) over wallets of <= 3 accounts of all kinds; symbolic encryption (Dec(p', Enc(p, t)) = t iff p' = p).
+          AddAccount) over wallets of <= 3 accounts of all kinds; symbolic encryption (Dec(p', Enc(p, t)) = t iff p' = p);
+          a second run with imported account dicts whose two ciphertexts are under different passwords; a witness run.
   Leg B   TLC -simulate behaviours of that model replayed call by call on REAL Wallet / Account / WalletStorage objects
-          (real Ledger + sqlite Database under DetLoop, wallet file on disk, passwords concretised from ASCII / unicode /
-          1000 characters); every refused unlock is preceded by a few hundred random and near-miss wrong passwords.
-  Leg C   the observations of those replays, and of longer seeded random histories (4 accounts, 3 passwords, account
-          dicts with ciphertexts under two different passwords), are validated by TLC against WalletCryptTrace.tla: the
-          clauses of the property are evaluated on the real state after every call; a difference between the model state
-          and the observation is "spec drift" (a NOTE), not a violation.
+          (real Ledger + sqlite Database + WalletManager under DetLoop, wallet file on disk, passwords concretised from
+          ASCII / unicode / 1000 characters incl. near-collisions); every unlock of a locked wallet is preceded by a batch
+          of random and near-miss wrong passwords.
+  Leg C   the observations of those replays, and of longer seeded random histories (4 accounts, 3 passwords, imported
+          accounts), are validated by TLC against WalletCryptTrace.tla: the clauses of the property are evaluated on the
+          real state after every call; the model runs alongside, a difference between model state and observation is
+          "spec drift" (a NOTE), not a violation.
 Atomic save
-  Leg A   AtomicSave.tla, a generic file-system model with a crash before and within every operation: the temp-file /
-          flush / fsync / close / rename protocol satisfies `Atomic`; in-place writing, remove-then-rename, rename of an
-          unflushed file, the Windows fallback of WalletStorage.write and a missing fsync (under power loss) do not.
-  Leg C   every file written by the real code in the legs above (and a set of direct WalletStorage.write scenarios) runs
-          under a process-wide recording shim (builtins.open / io.open / os.*); the recorded operation sequence is the
-          program of the generic model (AtomicSaveTrace.tla) -- TLC evaluates `Atomic` in every crash outcome of every
-          prefix.  Independently every crash state is MATERIALISED in a real directory (every prefix; 0 / 50 / 99 / 100 %
-          of unflushed data) and re-opened with the real WalletStorage.read / Wallet.from_storage."""
+  Leg A   AtomicSave.tla, a generic file-system model (names, inodes, handles with user-space buffers, visible vs durable
+          content) with a crash before and within every operation: the temp-file / flush / fsync / close / rename
+          protocols satisfy `Atomic`; in-place writing, overwriting, remove-then-rename, rename of an unflushed file, the
+          Windows fallback of WalletStorage.write, backup-then-rewrite and a missing fsync (under power loss) do not.
+  Leg C   every file written by the real code in the legs above (and direct WalletStorage.write scenarios) runs under a
+          process-wide recording shim (builtins.open / io.open / os.*); the recorded operation sequence is the program
+          of the generic model (AtomicSaveTrace.tla): TLC evaluates `Atomic` in every crash outcome of every prefix.
+          Independently the crash states are MATERIALISED in a real directory (every prefix; 0 / 50 / 99 / 100 % of the
+          unflushed data) and re-opened with the real WalletStorage.read / Wallet.from_storage.
+
+Shared-file note: nothing outside this module, specs/WalletCrypt*.tla and specs/AtomicSave*.tla was changed."""
 import base64
 import builtins
 import hashlib
@@ -31,6 +36,18 @@ from concurrent.futures import ThreadPoolExecutor
 
 from . import tlc
 from .common import MachineryError, Hang, watchdog
+
+_SEEN = {}
+
+
+def report(ctx, key, what, replay_obj=None, cap=3):
+    """at most `cap` replay files per key; further occurrences are only counted (evidence: legs.repeats)"""
+    _SEEN[key] = _SEEN.get(key, 0) + 1
+    if _SEEN[key] <= cap:
+        ctx.violation(key, what, replay_obj)
+    else:
+        ctx.leg('repeats', **{key: 1})
+
 
 # ================================================================================================ Leg A: the two models
 
@@ -56,67 +73,66 @@ def ccfg(npw, maxacc, maxops, initacc, foreign, invariants=(), properties=(), vi
                         symmetry='Sym' if symmetry else None)
 
 
-def fscfg(protos, power, invariants=('Atomic', 'Completes')):
-    return tlc.make_cfg(constants={'PROTOS': set(protos), 'POWER': power, 'NAMES': FS_NAMES}, invariants=invariants)
+FS_ALL = ['safe', 'safe_pieces', 'safe_stale', 'nofsync', 'inplace', 'overwrite', 'remove_rename', 'rename_early', 'win_fallback', 'backup_copy']
+FS_WITNESSES = ['W_CrashMidWrite', 'W_CrashAfterRename', 'W_Leak', 'W_Lost']
+
+
+def printed_tuples(res, tag):
+    out = []
+    for ln in res.printed:
+        if ln.startswith(f'<<"{tag}"'):
+            out.append(tlc.parse_value(ln)[1:])
+    return out
 
 
 def leg_a(ctx):
-    # ---- secrets, exhaustive
-    main = dict(npw=3, maxacc=3, maxops=8, initacc=3) if ctx.thorough else dict(npw=2, maxacc=3, maxops=7, initacc=3)
-    res = tlc.run('WalletCrypt', ccfg(foreign=False, invariants=CINVS, properties=CPROPS, symmetry=True, **main), ctx,
-                  timeout=3000, label='WalletCrypt-MC')
-    ctx.add_tlc(res, f'WalletCrypt exhaustive {main} FOREIGN=FALSE (symmetry over passwords)')
-    if res.violated:
-        ctx.violation('model:' + res.violated[0], f'model clause {res.violated[0]} violated', res.error_trace[:6000])
-        return False
-    tlc.require_coverage(res, CACTIONS, 'WalletCrypt')
-    foreign = dict(npw=2, maxacc=2, maxops=6 if ctx.thorough else 5, initacc=1)
-    res = tlc.run('WalletCrypt', ccfg(foreign=True, invariants=['WellFormed', 'NoPlaintextOnDisk'], properties=CPROPS, **foreign), ctx,
-                  timeout=3000, label='WalletCrypt-foreign')
-    ctx.add_tlc(res, f'WalletCrypt exhaustive {foreign} FOREIGN=TRUE (imported accounts, ciphertexts under two passwords)')
-    if res.violated:
-        ctx.violation('model:' + res.violated[0], f'model clause {res.violated[0]} violated (foreign accounts)', res.error_trace[:6000])
-        return False
-    tlc.require_coverage(res, CACTIONS + ['AddForeign'], 'WalletCrypt-foreign')
-
-    # ---- reachability witnesses and the file-system controls: small runs, side by side
-    jobs = []
-    for w, kind in CWITNESSES:
-        c = ccfg(2, 3, 6, 2, False, invariants=[w] if kind == 'i' else (), properties=[w] if kind == 'p' else ())
-        jobs.append(('wit', w, 'WalletCrypt', c))
-    jobs.append(('fs-good', 'power', 'AtomicSave', fscfg(FS_GOOD, True)))
-    jobs.append(('fs-good', 'nofsync-process-death', 'AtomicSave', fscfg(['nofsync'], False)))
-    jobs.append(('fs-bad', 'nofsync-power-loss', 'AtomicSave', fscfg(['nofsync'], True)))
-    for p in FS_BAD:
-        jobs.append(('fs-bad', p, 'AtomicSave', fscfg([p], False)))
-    for w in ('W_CrashMidWrite', 'W_CrashAfterRename', 'W_Leak'):
-        jobs.append(('wit', w, 'AtomicSave', fscfg(FS_GOOD, True, invariants=[w])))
+    """four model runs side by side: the two exhaustive secret models, their reachability witnesses, and the file-system
+    model over all protocols (positive ones as invariant, negative controls and witnesses through registers)"""
+    main = dict(npw=3, maxacc=3, maxops=10, initacc=3) if ctx.thorough else dict(npw=2, maxacc=3, maxops=7, initacc=3)
+    foreign = dict(npw=2, maxacc=3, maxops=7, initacc=1) if ctx.thorough else dict(npw=2, maxacc=2, maxops=5, initacc=1)
+    wit = ccfg(2, 2, 5, 1, False, symmetry=True).replace('CHECK_DEADLOCK', 'CONSTRAINT MarkState\nACTION_CONSTRAINT MarkAction\nPOSTCONDITION WitReport\nCHECK_DEADLOCK')
+    fs = tlc.make_cfg(constants={'PROTOS': set(FS_ALL), 'POWERS': {False, True}, 'NAMES': FS_NAMES},
+                      invariants=['AtomicWhereExpected', 'Completes'], constraint='Mark', postcondition='FsReport')
+    jobs = [('secrets', 'WalletCrypt', ccfg(foreign=False, invariants=CINVS, properties=CPROPS, symmetry=True, **main), 8, True),
+            ('foreign', 'WalletCrypt', ccfg(foreign=True, invariants=['WellFormed', 'NoPlaintextOnDisk'], properties=CPROPS, **foreign), 4, True),
+            ('witnesses', 'WalletCrypt', wit, 1, False),
+            ('fs', 'AtomicSave', fs, 1, True)]
 
     def one(job):
-        kind, name, module, c = job
-        return job, tlc.run(module, c, ctx, workers=2, coverage=(kind == 'fs-good'), timeout=600, label=f'{module}-{kind}-{name}')
-    with ThreadPoolExecutor(max_workers=8) as ex:
-        results = list(ex.map(one, jobs))
-    controls = {}
-    for (kind, name, module, _), r in results:
-        if kind == 'wit':
-            if name not in r.violated:
-                raise MachineryError(f'reachability witness {name} not reached: a clause may hold vacuously')
-        elif kind == 'fs-good':
-            ctx.add_tlc(r, f'AtomicSave exhaustive [{name}]: the safe protocols, every crash point')
-            if r.violated:
-                ctx.violation('model:fs-' + r.violated[0], f'the temp-file protocol violates {r.violated[0]} in the model', r.error_trace[:6000])
-                return False
-            if name == 'power':
-                tlc.require_coverage(r, FS_ACTIONS + ['Loses'], 'AtomicSave')
-            controls[name] = 'atomic'
-        else:
-            if 'Atomic' not in r.violated:
-                raise MachineryError(f'negative control {name}: the generic model accepts a protocol that is not atomic')
-            ctx.add_tlc(r, f'AtomicSave negative control [{name}] (Atomic violated, as it must be)')
-            controls[name] = 'not atomic (detected)'
-    ctx.leg('A', secrets=dict(main, invariants=CINVS, properties=CPROPS, witnesses_reached=[w for w, _ in CWITNESSES]),
-            secrets_foreign=foreign, file_system_controls=controls,
+        name, module, c, workers, cov = job
+        return name, tlc.run(module, c, ctx, workers=workers, coverage=cov, timeout=3000, label=f'{module}-{name}')
+    with ThreadPoolExecutor(max_workers=len(jobs)) as ex:
+        results = dict(ex.map(one, jobs))
+    for name in ('secrets', 'foreign'):
+        r = results[name]
+        ctx.add_tlc(r, f'WalletCrypt exhaustive {main} FOREIGN=FALSE (symmetry over passwords)' if name == 'secrets' else
+                    f'WalletCrypt exhaustive {foreign} FOREIGN=TRUE (imported accounts, ciphertexts under two passwords)')
+        if r.violated:
+            ctx.violation('model:' + r.violated[0], f'model clause {r.violated[0]} violated ({name})', r.error_trace[:6000])
+            return False
+        tlc.require_coverage(r, CACTIONS + (['AddForeign'] if name == 'foreign' else []), 'WalletCrypt-' + name)
+    seen = {t[0] for t in printed_tuples(results['witnesses'], 'WITNESS')}
+    missing = [w for w, _ in CWITNESSES if w not in seen]
+    if missing or not results['witnesses'].ok:
+        raise MachineryError(f'reachability witnesses not reached: {missing}: a clause may hold vacuously')
+    r = results['fs']
+    ctx.add_tlc(r, 'AtomicSave exhaustive: 10 protocols x old file present/absent x process death/power loss, crash at every point')
+    if r.violated:
+        ctx.violation('model:fs-' + r.violated[0], f'the temp-file protocol violates {r.violated[0]} in the model', r.error_trace[:6000])
+        return False
+    tlc.require_coverage(r, FS_ACTIONS + ['Loses', 'RenameFails', 'Remove'], 'AtomicSave')
+    caught = {(t[0], t[1]) for t in printed_tuples(r, 'NONATOMIC')}
+    expected = {(p, w) for p in FS_BAD for w in (False, True)} | {('nofsync', True)}
+    if caught != expected:
+        raise MachineryError(f'file-system model: negative controls not as expected: missed {sorted(expected - caught)}, '
+                             f'unexpected {sorted(caught - expected)}')
+    fseen = {t[0] for t in printed_tuples(r, 'WITNESS')}
+    if set(FS_WITNESSES) - fseen:
+        raise MachineryError(f'file-system model: witnesses not reached: {sorted(set(FS_WITNESSES) - fseen)}')
+    ctx.leg('A', secrets=dict(main, invariants=CINVS, properties=CPROPS, witnesses_reached=sorted(seen)),
+            secrets_foreign=foreign,
+            file_system=dict(atomic=FS_GOOD + ['nofsync (process death only)'], not_atomic_detected=sorted({p for p, _ in caught}),
+                             witnesses_reached=sorted(fseen)),
             windows_fallback='WalletStorage.write falls back to remove + rename when the rename raises (Windows): the model shows this '
                              'path is NOT atomic (negative control win_fallback); on POSIX rename never takes it')
     return True
@@ -465,7 +481,8 @@ def record_save(label, directory, fname, call):
 def materialise(rec, upto, frac, directory):
     """perform the first `upto` recorded operations for real (raw descriptors, our own user-space buffers), then die:
     `frac` of every unflushed buffer reaches its file"""
-    os.makedirs(directory)
+    for fn in os.listdir(directory):
+        os.unlink(os.path.join(directory, fn))
     for fn, b in rec.before.items():
         with open(os.path.join(directory, fn), 'wb') as f:
             f.write(b)
@@ -530,11 +547,10 @@ def check_crash_states(ctx, rec, env, deep):
         return 0
     new_d = json.loads(new_b)
     old_d = json.loads(old_b) if old_b is not None else None
-    base = ctx.mkdir('crash')
+    d = ctx.mkdir('crash')
     n = 0
     for upto in range(len(rec.ops) + 1):
         for frac in ((0.0, 0.5, 0.99, 1.0) if pending_at(rec, upto) else (0.0,)):
-            d = os.path.join(base, f'{id(rec)}-{upto}-{int(frac * 100)}')
             materialise(rec, upto, frac, d)
             n += 1
             nextop = rec.ops[upto]['op'] if upto < len(rec.ops) else 'end'
@@ -565,11 +581,10 @@ def check_crash_states(ctx, rec, env, deep):
             ctx.count(('crash', rec.label.split('#')[0], nextop, int(frac * 100), verdict), nontrivial=upto > 0)
             if verdict == 'other':
                 size = os.path.getsize(os.path.join(d, rec.fname)) if os.path.exists(os.path.join(d, rec.fname)) else None
-                ctx.violation(f'crash-before-{nextop}-leaves-broken-wallet',
+                report(ctx, f'crash-before-{nextop}-leaves-broken-wallet',
                               f'[{rec.label}] process death before operation {upto} ({nextop}) with {int(frac * 100)}% of the unflushed data '
                               f'written: {what}; file size {size}, old {len(old_b) if old_b is not None else None}, new {len(new_b)}',
                               {'ops': printable_ops(rec), 'crash_before': upto, 'fraction': frac})
-            shutil.rmtree(d, ignore_errors=True)
     return n
 
 
@@ -684,12 +699,12 @@ def wrong_passwords(rng, pwmap, n, for_scrypt=False):
     while len(out) < n:
         r = rng.random()
         if r < 0.6:
-            w = ''.join(chr(rng.randrange(33, 127)) for _ in range(rng.choice([1, 2, 6, 12, 40])))
+            w = base64.b85encode(rng.getrandbits(8 * 32).to_bytes(32, 'big')).decode()[:rng.choice([1, 2, 6, 12, 40])]
         elif r < 0.9:
             w = ''.join(chr(rng.choice([rng.randrange(0xa1, 0x250), rng.randrange(0x4e00, 0x4f00), rng.randrange(0x1f600, 0x1f640)]))
                         for _ in range(rng.choice([1, 4, 16])))
         else:
-            w = ''.join(chr(rng.randrange(33, 127)) for _ in range(1000))
+            w = base64.b85encode(rng.getrandbits(8 * 800).to_bytes(800, 'big')).decode()
         if w not in real:
             out.append(w)
     return out
@@ -755,9 +770,9 @@ class RealWallet:
             self.disk_truth = list(self.truth)
             return None
         rec = record_save(f'{label}#{self.tag}.{len(self.steps)}', self.dir, self.fname, fn)
-        self.saves.append(rec)
         if rec.exc is not None:
-            raise rec.exc
+            raise rec.exc                    # (an AssertionError of a refused call: nothing was written)
+        self.saves.append(rec)
         self.disk_truth = list(self.truth)
         return None
 
@@ -983,6 +998,7 @@ class History:
         self.ev = []
 
     def _log(self, e):
+        self.ctx.count(None)
         self.obs = self.rw.observe()
         self.ev.append(dict(e, obs=self.obs))
 
@@ -1025,7 +1041,7 @@ def mv(x):
 
 
 def leg_b(ctx, env, hists):
-    runs = [(False, 700 if ctx.thorough else 110, 12), (True, 300 if ctx.thorough else 50, 9)]
+    runs = [(False, 700 if ctx.thorough else 70, 12), (True, 300 if ctx.thorough else 30, 9)]
     for foreign, num, maxops in runs:
         simdir = ctx.mkdir(f'sim-{foreign}')
         c = ccfg(3, 3, maxops, 2, foreign, invariants=['WellFormed', 'NoPlaintextOnDisk'], view=False, strings=True)
@@ -1049,7 +1065,7 @@ def leg_b(ctx, env, hists):
                 h.rw.close()
             hists.append(h)
             acts = tuple(e['ev'] + str(e.get('pw', '')) for e in h.ev)
-            ctx.count(('beh', acts, tuple(a['kind'] for a in h.obs['accs'])), nontrivial=any(e['ev'] == 'Unlock' for e in h.ev))
+            ctx.count(('beh', acts, tuple(a['kind'] for a in h.obs['accs'])), nontrivial=any(e['ev'] == 'Unlock' for e in h.ev), n=0)
             if k < 2 and not foreign:
                 ctx.sample({'replayed_behaviour': [[mv(x) for x in st['state']['act']] for st in beh[1:]],
                             'initial_accounts': [a['kind'] for a in beh[0]['state']['accs']],
@@ -1104,18 +1120,58 @@ def random_history(ctx, env, k, rng):
 
 # ================================================================================================ judging
 
+def tampered_histories(traces):
+    """binding self-test: copies of real traces with ONE recorded fact falsified; TLC must object to each"""
+    import copy
+    out = []
+
+    def first(pred):
+        for t in traces:
+            for i, e in enumerate(t['ev']):
+                if pred(e):
+                    return copy.deepcopy(t), i
+        return None, None
+    t, i = first(lambda e: e['ev'] == 'Unlock' and e['pw'] == 'other' and not e['res'])
+    if t:
+        t['ev'][i]['res'] = True                                   # "a wrong password unlocked"
+        out.append((t, 'T_WrongRefused'))
+    t, i = first(lambda e: e['ev'] in ('Save', 'Encrypt') and e['obs']['pref'] and e['obs']['password'] != 'none' and e['obs']['accs'])
+    if t:
+        t['ev'][i]['obs']['disk']['plain'] = True                  # "the mnemonic was found in the encrypted file"
+        out.append((t, 'T_NoPlaintextOnDisk'))
+    t, i = first(lambda e: e['ev'] == 'Unlock' and e['res'] and any(a['pko'] for a in e['obs']['accs']))
+    if t:
+        j = [a['pko'] for a in t['ev'][i]['obs']['accs']].index(True)
+        t['ev'][i]['obs']['accs'][j]['keyok'] = False              # "another private key came back"
+        out.append((t, 'T_Identity'))
+    t, i = first(lambda e: e['ev'] == 'Unlock' and e['res'] and any(a['kind'] == 'seeded' for a in e['obs']['accs']))
+    if t:
+        j = [a['kind'] for a in t['ev'][i]['obs']['accs']].index('seeded')
+        t['ev'][i]['obs']['accs'][j].update(enc=True, seed='p1')   # "still encrypted after a successful unlock"
+        out.append((t, 'T_RightRestores'))
+    return out
+
+
 def judge_histories(ctx, hists):
     traces = [h.trace() for h in hists]
+    tampered = tampered_histories(traces)
+    if len(tampered) < 4:
+        raise MachineryError('the histories do not contain the events the binding self-test falsifies (no refused / successful unlock?)')
     c = tlc.make_cfg(spec='TSpec', constants={'PW': set(PWNAMES), 'MAXACC': 99, 'MAXOPS': 0, 'INITACC': 0, 'FOREIGN': True},
                      invariants=TINVS, constraint='Reached', postcondition='Report')
-    verdicts = tlc.validate_traces('WalletCryptTrace', c, traces, ctx, label='WalletCryptTrace', chunk=400, timeout=1800)
+    verdicts = tlc.validate_traces('WalletCryptTrace', c, traces + [t for t, _ in tampered], ctx, label='WalletCryptTrace', chunk=400, timeout=1800)
+    for v, (_, expected) in zip(verdicts[len(traces):], tampered):
+        if v['invariant'] is None:
+            raise MachineryError(f'trace validation is blind: a falsified trace (expected {expected}) was accepted')
+    ctx.leg('C', falsified_traces_rejected=[e for _, e in tampered])
+    verdicts = verdicts[:len(traces)]
     drift = 0
     for v in verdicts:
         h = hists[v['tid']]
         if v['invariant']:
             k = v.get('inv_event')
             e = h.ev[k] if k is not None and 0 <= k < len(h.ev) else {}
-            ctx.violation(f"{v['invariant'][2:]}:{e.get('ev', '?')}{'(other password)' if e.get('pw') == 'other' else ''}",
+            report(ctx, f"{v['invariant'][2:]}:{e.get('ev', '?')}{'(other password)' if e.get('pw') == 'other' else ''}",
                           f"clause {v['invariant']} violated on the real wallet at call {k} "
                           f"{ {x: y for x, y in e.items() if x != 'obs'} }", h.replay_obj(k))
         elif not v['accepted']:
@@ -1186,34 +1242,49 @@ def judge_saves(ctx, env, recs):
     for r, t in zip(recs, traces):
         if not any(o['op'] in ('rename', 'write', 'open') for o in t['ops']):
             raise MachineryError(f'[{r.label}] the recorder saw no file operation of a save that produced a file (blind shim)')
-    power_unsafe = 0
-    for power in (False, True):
-        c = tlc.make_cfg(spec='TSpec', constants={'PROTOS': set(), 'POWER': power, 'NAMES': FS_NAMES}, invariants=['Atomic', 'Completes'],
+    power_unsafe, unsafe = 0, set()
+    # binding self-test: the first recorded save rewritten as an in-place write (same bytes, straight into the wallet file)
+    fake = json.loads(json.dumps(traces[0]))
+    tmpname = next(o['f'] for o in fake['ops'] if o['op'] == 'open')
+    fake['ops'] = [dict(o, f='path') if o.get('f') == tmpname else o for o in fake['ops'] if o['op'] != 'rename']
+    nreal = len(traces)
+
+    def validate(power):
+        c = tlc.make_cfg(spec='TSpec', constants={'PROTOS': set(), 'POWERS': {power}, 'NAMES': FS_NAMES}, invariants=['Atomic', 'Completes'],
                          constraint='Reached', postcondition='Report')
-        verdicts = tlc.validate_traces('AtomicSaveTrace', c, traces, ctx, label=f'AtomicSaveTrace-power{int(power)}', chunk=1500, timeout=1800)
+        v = tlc.validate_traces('AtomicSaveTrace', c, traces + [fake], ctx, label=f'AtomicSaveTrace-power{int(power)}', chunk=1500, timeout=1800)
+        if v[nreal]['invariant'] != 'Atomic':
+            raise MachineryError('file-system trace validation is blind: an in-place write was accepted')
+        return v[:nreal]
+    pool = ThreadPoolExecutor(max_workers=2)
+    futures = {power: pool.submit(validate, power) for power in (False, True)}
+    # ---- meanwhile: crash states for real
+    deep_every = 2 if ctx.thorough else 8
+    every = 2 if ctx.thorough else 3
+    n = 0
+    for i, r in enumerate(recs):
+        if i % every == 0 or r.label.startswith('WalletStorage'):
+            n += check_crash_states(ctx, r, env, deep=(i % deep_every == 0) or r.label.startswith('WalletStorage'))
+    for power in (False, True):
+        verdicts = futures[power].result()
         for v in verdicts:
             r, t = recs[v['tid']], traces[v['tid']]
             if v['invariant'] == 'Atomic':
                 k = v.get('inv_event')
                 at = t['ops'][k]['op'] if k is not None and 0 <= k < len(t['ops']) else 'start'
                 if power:
-                    power_unsafe += 1
+                    power_unsafe += 0 if v['tid'] in unsafe else 1
                 else:
-                    ctx.violation(f'save-not-atomic-after-{at}',
+                    unsafe.add(v['tid'])
+                    report(ctx, f'save-not-atomic-after-{at}',
                                   f'[{r.label}] the recorded save is not atomic in the file-system model: after operation {k} ({at}), or in a crash '
                                   f'outcome there, the wallet file is neither the complete old nor the complete new version',
                                   {'kind': 'save', 'ops': t['ops'], 'old': t['old'], 'n': t['n']})
             elif v['invariant'] == 'Completes' or not v['accepted']:
                 raise MachineryError(f'[{r.label}] the file-system model cannot follow the recorded operations (stopped at {v["matched"]} of '
                                      f'{v["len"]}, {v["invariant"]}): {t["ops"]}')
-        if ctx.violations and not power:
-            break
+    pool.shutdown()
     ctx.cov['traces_validated_against_impl'] += len(traces)
-    # ---- crash states for real
-    deep_every = 1 if ctx.thorough else 6
-    n = 0
-    for i, r in enumerate(recs):
-        n += check_crash_states(ctx, r, env, deep=(i % deep_every == 0) or r.label.startswith('WalletStorage'))
     shapes = {}
     for t in traces:
         k = ' '.join(o['op'] for o in t['ops'])
@@ -1228,6 +1299,12 @@ def judge_saves(ctx, env, recs):
 
 # ================================================================================================ replay of a finding
 
+def snap(rw):
+    w = rw.wallet
+    return (w.encryption_password, w.preferences.to_dict_without_ts(),
+            [(a.seed, a.private_key_string, a.encrypted, a.private_key is None) for a in w.accounts])
+
+
 def replay_one(ctx):
     with open(ctx.replay) as f:
         r = json.load(f)['replay']
@@ -1237,9 +1314,10 @@ def replay_one(ctx):
     from lbry.wallet.wallet import Wallet
     env = Env(ctx, 'replay', ctx.rng)
     rw = RealWallet(ctx, env, 'replay', ctx.rng, r['passwords'], record_fs=False)
+    secrets = [x for s in r['steps'] if s['op'] == 'Add' for x in (s['dict'].get('seed'), s['dict'].get('private_key')) if x]
     for s in r['steps']:
         op = s['op']
-        before = rw.quick_state()[:3] + tuple(x[:4] for x in rw.quick_state()[3])
+        before = snap(rw)
         out = None
         try:
             if op in ('Add', 'AddForeign'):
@@ -1269,10 +1347,11 @@ def replay_one(ctx):
                     out = f'refused: {type(e).__name__}'
         except AssertionError as e:
             out = f'AssertionError: {e}'
-        after = rw.quick_state()[:3] + tuple(x[:4] for x in rw.quick_state()[3])
+        after = snap(rw)
         disk = open(rw.path).read() if os.path.exists(rw.path) else ''
         print(f'replay: {op} -> {out}; password={after[0]!r:.30} prefs={after[1]} accounts(seed, key string, encrypted, key is None)='
-              f'{[(x[0][:12], x[1][:12], x[2], x[3]) for x in after[3]]} changed={before != after} file={len(disk)} bytes', flush=True)
+              f'{[(x[0][:12], x[1][:12], x[2], x[3]) for x in after[2]]} changed={before != after} file={len(disk)} bytes, '
+              f'plain secret in file={any(x in disk for x in secrets)}', flush=True)
         ctx.count(('replay', op))
     env.close()
 
@@ -1293,11 +1372,11 @@ def run(ctx):
     try:
         leg_b(ctx, env, hists)
         t2 = time.time()
-        nrand = 900 if ctx.thorough else 150
+        nrand = 900 if ctx.thorough else 130
         for k in range(nrand):
             h = random_history(ctx, env, k, ctx.rng)
             hists.append(h)
-            ctx.count(('rand', tuple(e['ev'] + str(e.get('pw', '')) for e in h.ev), tuple(a['kind'] for a in h.obs['accs'])), nontrivial=True)
+            ctx.count(('rand', tuple(e['ev'] + str(e.get('pw', '')) for e in h.ev), tuple(a['kind'] for a in h.obs['accs'])), nontrivial=True, n=0)
             if k == 0:
                 ctx.sample({'random_history': [{x: y for x, y in e.items() if x != 'obs'} for e in h.ev],
                             'final': {k2: v for k2, v in h.obs.items() if k2 != 'disk'}})
@@ -1307,8 +1386,13 @@ def run(ctx):
         t3 = time.time()
         judge_histories(ctx, hists)
         t4 = time.time()
-        recs = direct_saves(ctx, env) + [r for h in hists for r in h.rw.saves]
-        judge_saves(ctx, env, recs)
+        try:
+            recs = direct_saves(ctx, env) + [r for h in hists for r in h.rw.saves]
+            judge_saves(ctx, env, recs)
+        except MachineryError as e:
+            if not ctx.violations:
+                raise
+            print(f'NOTE: the file-system leg stopped ({str(e)[:300]}); the violations above stand')
         ctx.leg('timing', model_runs_s=round(t1 - t0, 1), replays_s=round(t2 - t1, 1), random_histories_s=round(t3 - t2, 1),
                 trace_validation_s=round(t4 - t3, 1), save_judging_and_crash_states_s=round(time.time() - t4, 1))
     finally:
